@@ -29,8 +29,8 @@ RULE = (
     "orbit x date x frame x body. non-trivial = all cases (none is an identity); distinct by tuple"
 )
 BOUNDS = {
-    "quick": "Lambert 2x5x3x2x4x2=480 cases; SSO 12x6; B-plane 4x6x3x2; LTAN 24x24x2 both ways; Walker t<=24; beta 8 orbits x 12 dates x 8 frames x 2 bodies + 24 pole cases",
-    "thorough": "Lambert 3 radii x 22 angles x 4 ratios x 5 planes x 6 tof; SSO 40x9; B-plane 7 e x 10 anomalies x 5 orientations x 3 bodies; LTAN 96x96; Walker t<=72; beta 16 orbits x 48 dates",
+    "quick": "Lambert 2x5x3x2x4x2=480 cases; SSO 120x6; B-plane 4x6x3x2; LTAN 24x24x2 both ways; Walker t<=24; beta 8 orbits x 12 dates x 8 frames x 2 bodies + 24 pole cases",
+    "thorough": "Lambert 3 radii x 22 angles x 4 ratios x 5 planes x 6 tof; SSO 480x9; B-plane 7 e x 10 anomalies x 5 orientations x 3 bodies; LTAN 96x96; Walker t<=72; beta 16 orbits x 48 dates",
 }
 ASSUMPTIONS = [
     "'prograde' means positive z-component of the angular momentum in the frame of orb0 (the library's documented flag)",
@@ -272,7 +272,7 @@ def check_bplane(case, t):
     b_len = abs(k["a"]) * math.sqrt(k["e"] ** 2 - 1)
     ang = math.atan2(np.linalg.norm(np.cross(S, Sref)), S @ Sref)
     cond = k["e"] ** 2 / (k["e"] ** 2 - 1)
-    if not t.margin("bplane: angle(S, incoming asymptote) [rad]", ang, 1e-12 * cond + 1e-13 * 1e1, case):
+    if not t.margin("bplane: angle(S, incoming asymptote) [rad]", ang, 2e-13 * cond + 2e-13, case):
         t.fail(sig + "/S", "S is along the incoming asymptote", case, Sref, S, f"angle {ang:.3e} rad (raw, unextrapolated: {math.acos(min(1, S @ v1)):.3e})")
     # orthonormal right-handed triad
     G = np.array([S, T, R])
@@ -284,14 +284,14 @@ def check_bplane(case, t):
     Bn = np.linalg.norm(B)
     hh = k["h"] / np.linalg.norm(k["h"])
     perp = max(abs(B @ S), abs(B @ hh)) / Bn
-    if not t.margin("bplane: B.S, B.h (normalised)", perp, 1e-12 * cond, case):
+    if not t.margin("bplane: B.S, B.h (normalised)", perp, 1e-14 * cond, case):
         t.fail(sig + "/B-perp", "B is perpendicular to S and to the angular momentum", case, 0.0, [B @ S / Bn, B @ hh / Bn])
-    if not t.margin("bplane: |B| vs |a| sqrt(e^2-1) [rel]", abs(Bn / b_len - 1), 1e-13 * cond + 1e-14, case):
+    if not t.margin("bplane: |B| vs |a| sqrt(e^2-1) [rel]", abs(Bn / b_len - 1), 2e-14 * cond + 2e-14, case):
         t.fail(sig + "/B-length", "|B| is the impact parameter", case, b_len, Bn)
     # geometric construction: the asymptote goes through the centre of the hyperbola C = |a| e ê
     C = abs(k["a"]) * k["e"] * (k["evec"] / k["e"])
     Bref = C - (C @ Sref) * Sref
-    if not t.margin("bplane: B vs foot of the incoming asymptote [rel]", np.linalg.norm(B - Bref) / b_len, 1e-11 * cond * k["e"], case):
+    if not t.margin("bplane: B vs foot of the incoming asymptote [rel]", np.linalg.norm(B - Bref) / b_len, 1e-12 * cond * k["e"], case):
         t.fail(sig + "/B-vector", "B points from the focus to the incoming asymptote in the plane of motion", case, Bref, B)
     if np.linalg.norm(hv / np.linalg.norm(hv) - hh) > 1e-12:
         t.fail(sig + "/h", "h is the angular momentum", case, hh, hv)
@@ -329,7 +329,7 @@ def check_ltan(case, t):
             t.fail("ltan/range", "LTAN is a time of day", case, "[0, 86400)", lt)
         err = abs((back - raan + math.pi) % two_pi - math.pi)
         if not t.margin(f"raan -> ltan -> raan ({ty}) [rad]", err, 2e-15 * two_pi * 8, case):
-            t.fail("ltan/raan-roundtrip/" + ty, "ltan2raan inverts raan2ltan (mod 2 pi)", case, raan, back)
+            t.fail("ltan/raan-roundtrip", "ltan2raan inverts raan2ltan (mod 2 pi)", case, raan, back)
         t.outcome(("ltan", int(lt // 3600)))
     else:
         lt = case["ltan"]
@@ -344,7 +344,7 @@ def check_ltan(case, t):
             t.fail("ltan/raan-range", "RAAN in [0, 2 pi)", case, "[0, 2pi)", ra)
         err = abs((back - lt + 43200) % 86400 - 43200)
         if not t.margin(f"ltan -> raan -> ltan ({ty}) [s]", err, 2e-15 * 86400 * 8, case):
-            t.fail("ltan/ltan-roundtrip/" + ty, "raan2ltan inverts ltan2raan (mod 86400 s)", case, lt, back)
+            t.fail("ltan/ltan-roundtrip", "raan2ltan inverts ltan2raan (mod 86400 s)", case, lt, back)
         t.outcome(("raan", int(ra * 4)))
 
 
@@ -359,7 +359,6 @@ def check_walker(case, t):
     cls = WalkerStar if kind == "Star" else WalkerDelta
     span = math.pi if kind == "Star" else 2 * math.pi
     two_pi = 2 * math.pi
-    tol = 4e-15 * two_pi * 4
     sig = "walker/" + kind
     try:
         w = cls(tt, p, f, raan0) if raan0 else cls(tt, p, f)
@@ -377,17 +376,23 @@ def check_walker(case, t):
         return abs((x - y + math.pi) % two_pi - math.pi)
 
     worst = 0.0
+    ulp = 2.2e-16
+
+    def rel(diff, *mags):
+        # round-off of the library's expressions grows with the size of the angles it forms (nu reaches hundreds of rad)
+        return diff / (8 * ulp * (sum(abs(m) for m in mags) + two_pi))
+
     planes = [fleet[j * s : (j + 1) * s] for j in range(p)]
     for j, pl in enumerate(planes):
         # one RAAN per plane, evenly spaced over pi (Star) / 2 pi (Delta)
         for ra, _ in pl:
-            worst = max(worst, cd(ra, raan0 + j * span / p))
+            worst = max(worst, rel(cd(ra, raan0 + j * span / p), ra))
         for kk, (_, nu) in enumerate(pl):
             # evenly spaced in the plane; phasing f * 2pi / t between adjacent planes
-            worst = max(worst, cd(nu, pl[0][1] + kk * two_pi / s))
+            worst = max(worst, rel(cd(nu, pl[0][1] + kk * two_pi / s), nu, pl[0][1]))
             if j + 1 < p:
-                worst = max(worst, cd(planes[j + 1][kk][1] - nu, f * two_pi / tt))
-    if not t.margin("walker: plane spacing / in-plane spacing / phasing [rad]", worst, tol, case):
+                worst = max(worst, rel(cd(planes[j + 1][kk][1] - nu, f * two_pi / tt), nu, planes[j + 1][kk][1]))
+    if not t.margin("walker: plane spacing / in-plane spacing / phasing [over 8 ulp of the angles formed]", worst, 1.0, case):
         t.fail(sig + "/spacing", "evenly spaced planes, evenly spaced satellites, inter-plane phasing f*2pi/t", case, 0.0, worst)
     # the satellites are distinct
     keys = set((round((ra % two_pi) / 1e-9), round((nu % two_pi) / 1e-9) % round(two_pi / 1e-9)) for ra, nu in fleet)
@@ -477,7 +482,7 @@ def check_beta(case, t):
         t.outcome(("beta", cls, "nan"))
         return
     # arcsin is ill-conditioned at +-90 deg: error ~ sqrt(2 eps); frame changes add ~1e-12
-    tol = 1e-11 + (3e-8 if abs(ref) > 1.5 else 0.0)
+    tol = (1e-11 if frame in ROTATING else 1e-13) + (3e-8 if abs(ref) > 1.5 else 0.0)
     if not t.margin(f"beta vs elevation over the QSW plane, {cls} [rad]", abs(got - ref), tol, case):
         t.fail(sig, clause, case, ref, got, f"difference {math.degrees(got-ref):.4f} deg, frame {frame}")
     t.outcome(("beta", cls, int(math.degrees(ref) // 30)))
@@ -513,7 +518,7 @@ def cases(tier):
         for R0 in R0s for dl in deltas for ra in ratios for inc in incs for tf in tofs for pro in (True, False)
     ]
     # SSO
-    a_s = [6578e3 + k * (600e3 if q else 160e3) for k in range(12 if q else 40)]
+    a_s = [6578e3 + k * (50e3 if q else 12.5e3) for k in range(120 if q else 480)]
     e_s = [0.0, 1e-4, 0.001, 0.01, 0.05, 0.2] if q else [0.0, 1e-6, 1e-4, 0.001, 0.01, 0.05, 0.1, 0.2, 0.4]
     out["sso"] = [dict(kind="sso", a=a, e=e) for a in a_s for e in e_s]
     # B-plane
@@ -563,7 +568,7 @@ def cases(tier):
 def units(tier, seed):
     cfg = {"eop": "pass"}
     cs = cases(tier)
-    nchunks = dict(lambert=5, sso=2, bplane=2, ltan=4, walker=2, beta=5) if tier == "quick" else dict(
+    nchunks = dict(lambert=5, sso=3, bplane=2, ltan=4, walker=2, beta=5) if tier == "quick" else dict(
         lambert=24, sso=4, bplane=6, ltan=16, walker=8, beta=16)
     u = []
     for part, lst in cs.items():
